@@ -185,8 +185,8 @@ func (i UInt) ExponentiateUInt(other UInt) UInt {
 		return 1
 	}
 	result := i
-	var j UInt
-	for j = 2; j <= other; j++ {
+	// count down: an upward counter of the same type wraps around when `other` is the type's maximum
+	for j := other; j >= 2; j-- {
 		result *= i
 	}
 	return result
